@@ -43,32 +43,41 @@ KnownKeys(ver) == AllMetricKeys(ver) \cup {"version","vectorString"} \cup SeqToS
 \* lexicographic order of ASCII keys (Python compares code points: digits < upper case < lower case)
 Alpha == "0123456789ABCDEFGHIJKLMNOPQRSTUVWXYZabcdefghijklmnopqrstuvwxyz"
 Code(c) == IF IndexFrom(Alpha, c, 1) = 0 THEN 0 ELSE IndexFrom(Alpha, c, 1)
-RECURSIVE StrLess(_,_)
-StrLess(a, b) == IF a = "" THEN b # "" ELSE IF b = "" THEN FALSE
-                 ELSE IF Code(Ch(a,1)) # Code(Ch(b,1)) THEN Code(Ch(a,1)) < Code(Ch(b,1)) ELSE StrLess(Tail(a), Tail(b))
+\* (find the first differing position by equality, then compare that one character pair)
+RECURSIVE FirstDiff(_,_,_)
+FirstDiff(a, b, k) == IF k > Len(a) \/ k > Len(b) THEN k ELSE IF Ch(a,k) # Ch(b,k) THEN k ELSE FirstDiff(a, b, k+1)
+StrLess(a, b) == LET k == FirstDiff(a, b, 1) IN
+                 IF k > Len(a) THEN k <= Len(b) ELSE IF k > Len(b) THEN FALSE ELSE Code(Ch(a,k)) < Code(Ch(b,k))
 AsSet(doc) == {doc[k] : k \in 1..Len(doc)}
+\* key -> <<key, type, text>> of a document, evaluated once (lookups by Get are linear in the document)
+DocMap(doc) == TLCEval([k \in Keys(doc) |-> doc[CHOOSE x \in 1..Len(doc) : doc[x][1] = k]])
 Faithful(e, doc, g) ==
    LET ver == e.ver
        mets == MetricsOf(ver)
-       dup == \E x, y \in 1..Len(doc) : x < y /\ doc[x][1] = doc[y][1]
-       badMetric == {m \in mets : \E key \in KeyOfMetric(ver, m) : HasKey(doc, key) /\
-                        ~(Get(doc, key)[2] = "str" /\ Get(doc, key)[3] \in Accepted(ver, m, EffJson(ver, g, m)))}
-       versionOk == Get(doc,"version")[2] = "str" /\
-                    Get(doc,"version")[3] \in (IF ver = "2" THEN {"2.0"} ELSE IF ver = "4" THEN {"4","4.0"}
-                                              ELSE {IF e.out.minor = 0 THEN "3.0" ELSE "3.1"})
-       scoreBad == \E k \in 1..Len(e.out.scores) : HasKey(doc, ScoreKeys[k]) /\ e.out.scores[k] >= 0 /\
-                      ~(IsNumber(Get(doc, ScoreKeys[k])) /\ Tenths(Get(doc, ScoreKeys[k])[3]) = e.out.scores[k])
-       sevBad == \E k \in 1..Len(e.out.sev) : HasKey(doc, SevKeys[k]) /\ e.out.scores[k] >= 0 /\
-                      ~(Get(doc, SevKeys[k])[2] = "str" /\ Upper(Get(doc, SevKeys[k])[3]) = Upper(e.out.sev[k]))
+       dm == DocMap(doc)
+       ks == DOMAIN dm
+       dup == Cardinality(ks) # Len(doc)
+       badMetric == {m \in mets : \E key \in KeyOfMetric(ver, m) : key \in ks /\
+                        ~(dm[key][2] = "str" /\ dm[key][3] \in Accepted(ver, m, EffJson(ver, g, m)))}
+       versionOk == dm["version"][2] = "str" /\
+                    dm["version"][3] \in (IF ver = "2" THEN {"2.0"} ELSE IF ver = "4" THEN {"4","4.0"}
+                                          ELSE {IF e.out.minor = 0 THEN "3.0" ELSE "3.1"})
+       scoreBad == \E k \in 1..Len(e.out.scores) : ScoreKeys[k] \in ks /\ e.out.scores[k] >= 0 /\
+                      ~(IsNumber(dm[ScoreKeys[k]]) /\ Tenths(dm[ScoreKeys[k]][3]) = e.out.scores[k])
+       sevBad == \E k \in 1..Len(e.out.sev) : SevKeys[k] \in ks /\ e.out.scores[k] >= 0 /\
+                      ~(dm[SevKeys[k]][2] = "str" /\ Upper(dm[SevKeys[k]][3]) = Upper(e.out.sev[k]))
+       known == KnownKeys(ver)
    IN IF dup THEN "duplicate-key"
-      ELSE IF ~HasKey(doc,"version") \/ ~versionOk THEN "version"
-      ELSE IF ~HasKey(doc,"vectorString") \/ Get(doc,"vectorString")[2] # "str" \/ Get(doc,"vectorString")[3] # e.s THEN "vectorString"
-      ELSE IF ~HasKey(doc,"baseScore") THEN "baseScore-missing"
+      ELSE IF "version" \notin ks THEN "version"
+      ELSE IF ~versionOk THEN "version"
+      ELSE IF "vectorString" \notin ks THEN "vectorString"
+      ELSE IF dm["vectorString"][2] # "str" \/ dm["vectorString"][3] # e.s THEN "vectorString"
+      ELSE IF "baseScore" \notin ks THEN "baseScore-missing"
       ELSE IF scoreBad THEN "score-field"
       ELSE IF sevBad THEN "severity-field"
       ELSE IF badMetric # {} THEN "metric-field-" \o (CHOOSE m \in badMetric : TRUE)
-      ELSE IF \E k \in Keys(doc) : k \notin KnownKeys(ver) THEN "unknown-key-" \o (CHOOSE k \in Keys(doc) : k \notin KnownKeys(ver))
-      ELSE IF \E m \in SeqToSet(MandOf(ver)) : \A key \in KeyOfMetric(ver, m) : ~HasKey(doc, key) THEN "base-field-missing"
+      ELSE IF \E k \in ks : k \notin known THEN "unknown-key-" \o (CHOOSE k \in ks : k \notin known)
+      ELSE IF \E m \in SeqToSet(MandOf(ver)) : \A key \in KeyOfMetric(ver, m) : key \notin ks THEN "base-field-missing"
       ELSE "ok"
 \* sorted variant: same fields, ascending keys
 SortedOk(u, s) == IF AsSet(u) # AsSet(s) \/ Len(u) # Len(s) THEN "sort-changes-content"
